@@ -1831,6 +1831,10 @@ def oracle(ctx: C.Ctx, cov: C.Coverage, only_directed: bool = False) -> List[C.F
             sigs.add(f.sig)
             f.case["ops"] = C.ddmin(f.case["ops"], lambda o, f=f, fb=fb, hi=hi: (lambda g: g is not None and g.sig == f.sig)(run_docs(o, fb, (ctx.seed, hi))), 60)
             out.append(f)
+    for f in list_child_probe(False) + list_child_probe(True):
+        if f.sig not in sigs:
+            sigs.add(f.sig)
+            out.append(f)
     # (round 8) directed: the replacement of an ANCESTOR (the submodel, or a collection in it) holds, under a stored idShort, an
     # element of ANOTHER class - for every ordered pair of element classes, sub- and superclasses of each other included
     # (AnnotatedRelationshipElement / RelationshipElement): what is read afterwards is the replacement, class and all
@@ -2574,6 +2578,63 @@ def run_docs(ops: List[List[Any]], file_backed: bool, seed: Any, verify: Any = T
         run.close()
 
 
+# ------------------------------------------------------------------------------------------- children of a SubmodelElementList
+
+def list_child_probe(file_backed: bool = False) -> List[C.Failing]:
+    """(round 8, named by a seeding agent) "all idShort paths incl. list indices": an element inside a SubmodelElementList is a
+    resource like any other - it is read under `<list path>.<index>`, and a POST into the list answers with a location under
+    which the created child is read."""
+    out: List[C.Failing] = []
+    srv = Server(file_backed)
+    mode = "file" if file_backed else "dict"
+    try:
+        sm_doc = {"modelType": "Submodel", "id": "urn:lst", "submodelElements": [
+            {"modelType": "SubmodelElementList", "idShort": "lst", "typeValueListElement": "Property", "valueTypeListElement": "xs:int",
+             "value": [{"modelType": "Property", "valueType": "xs:int", "value": "10"}, {"modelType": "Property", "valueType": "xs:int", "value": "11"}]}]}
+        r = srv.send(mk_req("POST", ["submodels"], 1, 0, "raw", json.dumps(sm_doc).encode()), raw=True)
+        if r[0] != "raw" or r[1] != 201:
+            return out                                              # nothing to judge
+        base = ["submodels", b64("urn:lst"), "submodel-elements"]
+        for idx, want in (("0", "10"), ("1", "11")):
+            g = srv.send(mk_req("GET", base + ["lst." + idx], 1), raw=True)
+            doc = None
+            if g[0] == "raw" and g[1] == 200:
+                try:
+                    doc = json.loads(g[4])
+                except Exception:
+                    doc = None
+            if not (isinstance(doc, dict) and doc.get("value") == want):
+                out.append(C.Failing("http:list-child:GET:not-reachable", f"GET .../submodel-elements/lst.{idx} (child {idx} of a SubmodelElementList, value {want}) "
+                                     f"answered {g[1] if g[0] == 'raw' else g}: an element inside a list cannot be addressed",
+                                     {"kind": "list-child", "mode": mode, "which": "GET"}, g[1] if g[0] == "raw" else g, 200))
+                break
+        child = {"modelType": "Property", "valueType": "xs:int", "value": "12"}
+        try:
+            p_ = srv.client.open(url_of(mk_req("POST", base + ["lst"], 1, 0, "raw", b"")), method="POST", headers={"Accept": "application/json"},
+                                 data=json.dumps(child).encode(), content_type="application/json")
+        except Exception:
+            p_ = None
+        if p_ is not None and p_.status_code == 201:
+            loc = p_.headers.get("Location")
+            try:
+                g = srv.client.get(urllib.parse.urlsplit(loc).path, headers={"Accept": "application/json"}) if loc else None
+            except Exception:
+                g = None
+            ok = False
+            if g is not None and g.status_code == 200:
+                try:
+                    ok = json.loads(g.get_data()).get("value") == "12"
+                except Exception:
+                    ok = False
+            if not ok:
+                out.append(C.Failing("http:list-child:POST:location-not-retrievable", "POST of a Property into a SubmodelElementList answered 201 with Location "
+                                     f"{loc!r}; a GET of that location answers {g.status_code if g is not None else 'nothing'} - the created resource is not "
+                                     "retrievable at the returned location", {"kind": "list-child", "mode": mode, "which": "POST"}))
+    finally:
+        srv.close()
+    return out
+
+
 def search(ctx: C.Ctx, disagreements, broken) -> List[C.Failing]:
     out: List[C.Failing] = []
     from props import c11
@@ -2604,6 +2665,8 @@ def replay(case) -> Optional[C.Failing]:
         fs = [f for f in oracle(C.Ctx("C10", "quick", 0, random.Random(0), 0.0, 1), C.Coverage(), only_directed=True)
               if f.case.get("kind") == "qualifier-rename" and f.case.get("mode") == case.get("mode") and f.case.get("segs") == case.get("segs")]
         return fs[0] if fs else None
+    if case.get("kind") == "list-child":
+        return next((f for f in list_child_probe(case.get("mode") == "file") if f.case.get("which") == case.get("which")), None)
     if case.get("kind") == "semantic":
         return run_semantic(case["ops"], case.get("mode") == "file", case.get("seed", 0), case.get("sweep", True))
     if case.get("kind") == "doc":
